@@ -8,21 +8,64 @@ CHECKS: Dict[str, "Check"] = {}
 
 
 class Check:
-    def __init__(self, id, prop, fn, gen, nontrivial=None, doc=""):
-        self.id, self.prop, self.fn, self.gen, self.nontrivial, self.doc = id, prop, fn, gen, nontrivial, doc
+    def __init__(self, id, prop, fn, gen, nontrivial=None, doc="", twins=False):
+        self.id, self.prop, self.fn, self.nontrivial, self.doc = id, prop, fn, nontrivial, doc
         self.name = id
+        self.twins = twins
+        self.gen = (lambda rng, tier, _g=gen: with_twins(_g(rng, tier), rng, twins)) if twins else gen
 
     def run(self, inputs) -> Optional[str]:
         return self.fn(**inputs)
 
 
-def bounded(prop, name, gen, nontrivial=None):
+def bounded(prop, name, gen, nontrivial=None, twins=False):
+    """twins=("mask", "values", ...): the inputs of this check are a 2-D boolean `mask` plus arrays of the mask's shape and shape-independent
+    values; the case stream is then interleaved with *reshaped twins* (see with_twins)"""
     def deco(fn):
         cid = "%s:%s" % (prop, name)
-        CHECKS[cid] = Check(cid, prop, fn, gen, nontrivial, fn.__doc__ or "")
+        CHECKS[cid] = Check(cid, prop, fn, gen, nontrivial, fn.__doc__ or "", twins)
         return fn
     return deco
 
+
+def with_twins(cases, rng, keys=("mask",), p=0.25):
+    """History-sensitive streams.  Results must not depend on what was computed before (C11, and every property quantifies over
+    single calls), so a memo / cached buffer keyed on too little must show up as a wrong answer for SOME sequence of calls.
+    Random cases almost never collide on such keys; twins do: before a case with an H x W mask (H != W) the same case is
+    evaluated with every H x W array reshaped to W x H -- same bytes, same unmasked count, same scales / origin, other shape.
+    Each twin is an ordinary valid input, judged by the check's own oracle."""
+    import numpy as np
+    for c in cases:
+        m = c.get("mask") if isinstance(c, dict) else None
+        if isinstance(m, np.ndarray) and m.ndim == 2 and m.shape[0] != m.shape[1] and rng.random() < p:
+            H, W = m.shape
+            t = {}
+            for k, v in c.items():
+                if k in keys and isinstance(v, np.ndarray) and v.ndim >= 2 and v.shape[:2] == (H, W):
+                    t[k] = np.ascontiguousarray(v.reshape((W, H) + v.shape[2:]))
+                else:
+                    t[k] = v
+            yield t
+        yield c
+
+
+# checks whose inputs are "a 2-D mask + arrays of the mask's shape + shape-independent values": reshaped twins are valid inputs
+TWIN_CHECKS = {      # check id -> the inputs that have the mask's shape (reshaped together with it)
+    "C01:array2d-native-input": ("values",), "C01:array2d-forms-both-modes": ("values",), "C01:array2d-apply-mask": ("values",),
+    "C01:grid2d-forms-both-modes": ("values",), "C01:vectoryx2d-forms-both-modes": ("values", "grid"), "C01:mask2d-derive-indexes": (),
+    "C02:grid2d-pixel-centres": (),
+    "C09:over-sampled-grid": (), "C09:binned-means": (), "C09:decorator-uniform": (), "C09:decorator-plain-method": (),
+    "C09:iterate-stopping-rule": (),
+    "C10:blurring-util-footprint-or-raise": (), "C10:blurring-derive-mask-and-grid": (), "C10:edge-set-util": (), "C10:border-set-util": (),
+    "C10:edge-border-sets-masked-outer-ring": (), "C10:edge-border-views-agree": (),
+    "C12:grid-from-mask-and-derived-grids": (), "C12:mask2d-zoom-mask-unmasked": (), "C12:array2d-zoomed-resized-padded-trimmed": (),
+    "C13:dft-class-visibilities": ("image",), "C13:dft-class-image-from": ("image",), "C13:dft-class-mapping-matrix-signed": ("image",),
+    "C13:dft-class-native-stored-image": ("image",),
+    "C14:zoom-window-contains-unmasked": ("values",), "C14:array2d-resized-centred": ("values",), "C14:mask2d-resized-centred": (),
+    "C16:fits-util-2d-roundtrip": ("values",), "C16:fits-array2d-file-roundtrip": ("values",), "C16:fits-array2d-hdu-roundtrip": ("values",),
+    "C16:fits-mask2d-roundtrip": ("values",),
+    "C08:fit-residual-flux-fraction-map": ("data", "noise_map", "model_data"), "C08:fit-signal-to-noise-map": ("data", "noise_map", "model_data"),
+}
 
 _loaded = False
 
@@ -38,6 +81,10 @@ def load_all():
         import bounded as pkg  # noqa
         for m in sorted(pkgutil.iter_modules([root])):
             importlib.import_module("bounded." + m.name)
+        for cid, keys in TWIN_CHECKS.items():
+            c = CHECKS[cid]                      # KeyError: the table names a check that no longer exists
+            if not c.twins:
+                CHECKS[cid] = Check(c.id, c.prop, c.fn, c.gen, c.nontrivial, c.doc, ("mask",) + tuple(keys))
     _loaded = True
 
 
